@@ -582,6 +582,8 @@ class Manager:
         # TODO: Refactor this method.
 
         if event.cancelled:
+            # It will never be handled: tell the event that tracks it.
+            self._effectDone(event)
             return
 
         if event.complete:
@@ -695,6 +697,9 @@ class Manager:
             channels = getattr(event, 'success_channels', event.channels)
             self.fire(event.child('success', event, event.value.value), *channels)
 
+        self._effectDone(event)
+
+    def _effectDone(self, event):
         while True:
             # cause attributes indicates interest in completion event
             cause = getattr(event, 'cause', None)
